@@ -150,8 +150,14 @@ static void inst_unregister(int ii)
 }
 
 /* ------------------------------------------------------------------ the reference stream */
+static void finish_dispatch(int ii, const char *where);
 static void hook_read_post(int fd, void *buf, ssize_t r)
 {
+	/* the library handles one descriptor at a time: when another instance's descriptor is read, the dispatch of the previous
+	 * instance's records is over - what it passed over is judged against the watches as they were THEN (a watch that is
+	 * registered later and happens to get the same watch descriptor has no claim on them) */
+	if (r > 0 && dispatching >= 0 && inst[dispatching].fd != fd)
+		for (int ii = 0; ii < ninst; ii++) if (inst[ii].registered && inst[ii].fd == fd) { finish_dispatch(dispatching, "before the next instance's read"); break; }
 	for (int ii = 0; ii < ninst; ii++) {
 		struct minst *I = &inst[ii];
 		if (!I->registered || I->fd != fd || r <= 0) continue;
@@ -266,6 +272,8 @@ static void actions(struct mwatch *self, int nmax)
 }
 static void burst_cb(void *c)
 {
+	/* a timer handler: the descriptor dispatch of the previous iteration is over (timers run before the next poll) */
+	for (int ii = 0; ii < ninst; ii++) if (inst[ii].head < inst[ii].npend || dispatching == ii) finish_dispatch(ii, "end of the iteration (next timer round)");
 	(void)c;
 	depth++;
 	vz_log("burst:");
